@@ -157,6 +157,8 @@ def main():
         streams = [("c02-known", {}),
                    ("c02-mini", dict(seed=seed, tier="quick")),
                    ("c02-multi", dict(n=6, seed=seed, tier="quick")),
+                   ("c02-unions", dict(seed=seed, tier="quick")),
+                   ("c02-veneers", dict(seed=seed, tier="quick")),
                    ("c02-lab", dict(n=8, seed=seed, tier="quick")),
                    ("c02-langs", dict(n=6, seed=seed, tier="quick")),
                    ("c02-ir", dict(n=16, seed=seed, tier="quick")),
@@ -165,6 +167,8 @@ def main():
         streams = [("c02-known", {}),
                    ("c02-mini", dict(seed=seed, tier="thorough")),
                    ("c02-multi", dict(n=120, seed=seed, tier="thorough")),
+                   ("c02-unions", dict(seed=seed, tier="thorough")),
+                   ("c02-veneers", dict(seed=seed, tier="thorough")),
                    ("c02-lab", dict(n=300, seed=seed, tier="thorough")),
                    ("c02-lab", dict(n=100, seed=seed + 100, tier="thorough", builders=1)),
                    ("c02-langs", dict(n=200, seed=seed, tier="thorough")),
